@@ -835,6 +835,13 @@ func (r *Run) c14World(topo string, item []byte) (*c14World, error) {
 			nw.nodes[h.addr.String()] = h
 			start = append(start, dht.NewAddr(h.addr))
 		}
+		if r.rng.Intn(2) == 0 {
+			alias := &c14Node{addr: hs[0].addr}
+			r.rng.Read(alias.id[:])
+			for _, h := range hs {
+				h.nodes = append(append([]*c14Node{}, hs...), alias)
+			}
+		}
 	case "answer", "mixed":
 		a, b, c := r.c14MkNode(false), r.c14MkNode(false), r.c14MkNode(true)
 		a.nodes = []*c14Node{b}
@@ -843,6 +850,12 @@ func (r *Run) c14World(topo string, item []byte) (*c14World, error) {
 		}
 		a.values, b.values = true, true
 		a.item, b.item = item, item
+		if r.rng.Intn(2) == 0 {
+			// the reply lists b's address a second time under another ID (stale entry in the responder's table)
+			alias := &c14Node{addr: b.addr}
+			r.rng.Read(alias.id[:])
+			a.nodes = append(a.nodes, alias)
+		}
 		for _, n := range []*c14Node{a, b, c} {
 			nw.nodes[n.addr.String()] = n
 		}
@@ -1265,7 +1278,7 @@ func (r *Run) c14Getput(acct *c14Acct, reps int, put bool, topo, fault, leakMsg 
 // ---------------------------------------------------------------------------------------------
 
 func runC14(r *Run) {
-	r.Result.Rule = "query fault placements enumerated (NumTries 0..4 x resend delay {0, small} x {silent, pre-cancelled, closed server, late reply, and per send k: reply/cancel/Close during, at and after the write, write failure, duplicate reply, reply racing a failed write, cancel racing a reply, Close racing a reply, faults on consecutive sends}) plus PRNG-drawn multi-fault schedules; each placement repeated (20x) on fresh servers with goroutine accounting; every distinct observed history validated by the Lean query machine with model-independent negative controls; traversal owners (Bootstrap, Announce, getput.Get/Put) x {resolver error, no nodes, silent node, answering nodes, several simultaneous holders of the item} x {run, ctx cancel, Server.Close, Announce.Close/StopTraversing at three points, Close/StopTraversing during a slow node-filter look-up under the traversal lock} x {consumer reads, does not read}; non-trivial = distinct (scenario, observed history, outcome)"
+	r.Result.Rule = "query fault placements enumerated (NumTries 0..4 x resend delay {0, small} x {silent, pre-cancelled, closed server, late reply, and per send k: reply/cancel/Close during, at and after the write, write failure, duplicate reply, reply racing a failed write, cancel racing a reply, Close racing a reply, faults on consecutive sends}) plus PRNG-drawn multi-fault schedules; each placement repeated (20x) on fresh servers with goroutine accounting; every distinct observed history validated by the Lean query machine with model-independent negative controls; traversal owners (Bootstrap, Announce, getput.Get/Put) x {resolver error, no nodes, silent node, answering nodes, several simultaneous holders of the item; replies that list one address under two IDs} x {run, ctx cancel, Server.Close, Announce.Close/StopTraversing at three points, Close/StopTraversing during a slow node-filter look-up under the traversal lock} x {consumer reads, does not read}; non-trivial = distinct (scenario, observed history, outcome)"
 	t0 := time.Now()
 	acct := &c14Acct{stable: time.Duration(r.n(500, 1500)) * time.Millisecond}
 	if extra, dump := acct.settle(); extra > 0 {
